@@ -197,6 +197,9 @@ func schedule(tasks []*task) {
 	}
 }
 
+// readOther is the second set handed to the readers' algebra operations (C18 world, set kinds).
+var readOther Subject
+
 type concWorld struct{}
 
 var concKinds = allKinds
@@ -292,6 +295,13 @@ func (w *concWorld) Exec(p *Plan, st *RunStats) *Violation {
 	start := stepCount
 	s := makeSubject(p.Cfg, false)
 	twin := makeSubject(p.Cfg, false)
+	var other Subject // sets: the argument of Intersection/Union/Difference (never observed by the harness)
+	if familyOf(p.Cfg.Kind) == "set" {
+		other = s.Fresh()
+		readOther = other
+	} else {
+		readOther = nil
+	}
 	o := NewOracle("C18", "C18")
 	o.Kind = p.Cfg.Kind
 	inert := NewOracle("C18")
@@ -469,6 +479,9 @@ func (w *concWorld) Exec(p *Plan, st *RunStats) *Violation {
 			mu.Lock()
 			safely(inert, op, func() { inert.V = nil; s.Step(op, inert) })
 			safely(inert, op, func() { inert.V = nil; twin.Step(op, inert) })
+			if other != nil && op.ID%3 != 0 { // the argument set holds two thirds of the writes: overlapping, not equal
+				safely(inert, op, func() { inert.V = nil; other.Step(op, inert) })
+			}
 			mu.Unlock()
 		}
 		if o.Failed() {
